@@ -32,8 +32,43 @@ def configs(ctx):
     return out
 
 
+PROGRESS_CFG = """CONSTANTS
+  N = {n}
+  StakeVec <- SV
+  Byz = {byz}
+  Crashed = {crashed}
+  NoisyByz = {noisy}
+  AsyncSteps = {steps}
+  W = {w}
+  MaxSlot = {maxslot}
+INIT Init
+NEXT Next
+INVARIANTS Agreement NoFinalAndSkip
+"""
+
+
+def run_progress_mc(ctx, name, stakes, byz, crashed, noisy, steps, w, maxslot, timeout=1500, witnesses=()):
+    """Design level: every terminal state of the timely phase satisfies the goal (deadlock = counterexample)."""
+    fmt = lambda xs: "{" + ", ".join(map(str, xs)) + "}"
+    cfg = PROGRESS_CFG.format(n=len(stakes), byz=fmt(byz), crashed=fmt(crashed), noisy=("TRUE" if noisy else "FALSE"),
+                              steps=steps, w=w, maxslot=maxslot)
+    sv = S.sv(stakes)
+    if witnesses:
+        ctx.witness(name, "MC_AbsProgress", cfg.replace("INVARIANTS Agreement NoFinalAndSkip\n", ""), sv, witnesses,
+                    workers=6, timeout=600)
+    return ctx.tlc(name, "MC_AbsProgress", cfg, sv, workers=12, timeout=timeout, heap="12g")
+
+
 def run(ctx):
     ctx.build_harness()
+    # 0. design level (AlpenglowAbs + leaders + asynchronous prefix, then timely network): progress for EVERY schedule
+    run_progress_mc(ctx, "prog6_silent", [1] * 6, [5], [1], False, 4, 2, 5,
+                    witnesses=["W_Judged", "W_GoalReached", "W_SkippedWindow"])
+    run_progress_mc(ctx, "prog6_noisy", [1] * 6, [5], [1], True, 2, 2, 5)
+    if ctx.tier == "thorough":
+        run_progress_mc(ctx, "prog6_noisy5", [1] * 6, [5], [1], True, 5, 2, 5, timeout=3000)
+        run_progress_mc(ctx, "prog6_silent7", [1] * 6, [0], [3], False, 7, 2, 5, timeout=3000)
+        run_progress_mc(ctx, "prog4_w4", [2, 2, 2, 1], [3], [], True, 3, 4, 7, timeout=3400)
     ctx.assumptions += ["virtual time: all post-stabilisation delays <= 100 ms (< DELTA = 250 ms)",
                         "crashed < 20% and Byzantine < 20% of the stake"]
     judged_any = False
